@@ -1,4 +1,19 @@
 #!/bin/sh
+# Build everything the checks need, offline, from files on disk: tables from /repo, the Coq
+# development (full .vo build), the extracted OCaml model runner, the Rust harness (debug+release).
 set -e
 cd "$(dirname "$0")"
-echo "setup: placeholder"
+export CARGO_NET_OFFLINE=true
+python3 - <<'PY'
+import sys
+sys.path.insert(0, 'tools')
+import vlib
+rep = vlib.translate()
+print('translate:', rep.get('ok'), rep.get('same_as_committed'))
+ok, out = vlib.coq_make()
+if not ok:
+    print(out[-3000:]); sys.exit(1)
+vlib.build_driver()
+vlib.build_harness(release=True)
+print('setup done')
+PY
